@@ -344,7 +344,7 @@ func mutateModule(t *rapid.T, g gdsl.Graph, i int, what string) (gdsl.Graph, c06
 }
 
 func genC06(t *rapid.T) c06Case {
-	c := c06Case{Graph: gdsl.GenGraph(t, gdsl.Opts{MinMods: 3, MaxMods: 12})}
+	c := c06Case{Graph: gdsl.GenGraph(t, gdsl.Opts{MinMods: 3, MaxMods: 12, ParamsLikeNames: true})}
 	for tries := 0; ; tries++ {
 		mutated, mut, ok := mutate(t, c.Graph)
 		if ok {
